@@ -456,6 +456,9 @@ class H2Server:
         if s.responded or s.closed and s.reset_by_client:
             return
         body = self.body_for(s.token)
+        if dict(s.headers).get(b":method") == b"HEAD":
+            conn.send_headers(s.id, [(b":status", status), (b"x-echo", s.token or b"?")], end_stream=True)
+            return
         conn.send_headers(s.id, [(b":status", status), (b"x-echo", s.token or b"?")], end_stream=False,
                           split=self.cfg.get("split_headers"))
         conn.send_data(s.id, body, end_stream=True, frame_size=self.cfg.get("data_frame_size"))
@@ -469,3 +472,63 @@ class H2Server:
             for s in conn.blocked_uploads():
                 if s.recv_window < max(1, iw // 2):
                     conn.send_window_update(s.id, iw - s.recv_window)
+
+
+class AutoConn(Peer):
+    """Origin connection that speaks HTTP/2 if the client sends the preface, HTTP/1.1 otherwise;
+    selects ALPN according to `alpn_policy` ("h2" | "http/1.1" | None) but only among what was offered."""
+
+    def __init__(self, auto):
+        self.auto = auto
+        self.inner = None
+        self.tr = None
+        self.tls = []
+        self.first = bytearray()
+        self.proto = None
+
+    def _mc_state(self):
+        return ("auto", self.proto, bytes(self.first) if self.inner is None else b"", self.inner)
+
+    def on_connect(self, tr):
+        self.tr = tr
+        self.auto.conns.append(self)
+
+    def on_tls(self, tr, sni, alpn_offered):
+        pol = self.auto.alpn_policy
+        sel = pol if pol in alpn_offered else None
+        self.tls.append({"sni": sni, "offered": list(alpn_offered), "selected": sel})
+        return sel
+
+    def on_data(self, tr, data):
+        if self.inner is None:
+            self.first += data
+            if len(self.first) < 4 and PREFACE.startswith(bytes(self.first)):
+                return
+            if bytes(self.first[:4]) == b"PRI ":
+                self.proto = "h2"
+                self.inner = self.auto.h2.new_conn()
+            else:
+                self.proto = "h1"
+                self.inner = self.auto.h1.new_conn()
+            self.inner.on_connect(tr)
+            data = bytes(self.first)
+        self.inner.on_data(tr, data)
+
+    def on_client_read(self, tr, n):
+        if self.inner is not None:
+            self.inner.on_client_read(tr, n)
+
+    def on_client_close(self, tr):
+        if self.inner is not None:
+            self.inner.on_client_close(tr)
+
+
+class AutoServer:
+    def __init__(self, h1, h2, alpn_policy):
+        self.h1 = h1
+        self.h2 = h2
+        self.alpn_policy = alpn_policy
+        self.conns: list[AutoConn] = []
+
+    def new_conn(self):
+        return AutoConn(self)
